@@ -143,7 +143,12 @@ func VerifC11Reframe() {
 
 	hdr := []hpack.HeaderField{{Name: ":path", Value: "/svc/Method"}, {Name: "content-type", Value: "application/grpc"}}
 	if enc != "" {
-		hdr = append(hdr, hpack.HeaderField{Name: "grpc-encoding", Value: enc})
+		// header fields come in any order: grpc-encoding after or before content-type
+		if vf.Choice("encoding-before-content-type", 2) == 1 {
+			hdr = []hpack.HeaderField{hdr[0], {Name: "grpc-encoding", Value: enc}, hdr[1]}
+		} else {
+			hdr = append(hdr, hpack.HeaderField{Name: "grpc-encoding", Value: enc})
+		}
 	}
 	vf.Assert(cp.Header(hdr, false, http2.PriorityParam{}) == nil, "request-headers-accepted")
 	proc, sink := cp, c2sSink
